@@ -73,9 +73,9 @@ Proof.
 Qed.
 
 Lemma local_loop_ext vis vis' : Forall2 veq2 vis vis' ->
-  forall ns lc st, local_loop vis ns lc st = local_loop vis' ns lc st.
+  forall ns lc il st, local_loop vis ns lc il st = local_loop vis' ns lc il st.
 Proof.
-  intros H ns lc st. unfold local_loop.
+  intros H ns lc il st. unfold local_loop.
   assert (Hf : map fst vis = map fst vis').
   { induction H as [|x y r r' [H1 _] Hr IH]; cbn [map]; [reflexivity|]. rewrite H1, IH. reflexivity. }
   rewrite Hf. f_equal. apply apply_all_ext.
@@ -197,6 +197,8 @@ Proof. intros b Hg. unfold analyse_wide, analyse. rewrite (trw_block_narrow b Hg
 
 (* ------------------------------------------------------------------ the narrow fragment lies inside the wide one and
    contains no `_G.name` *)
+(* the fragment has no table constructor: tag_local_init_w is tag_local_init on it *)
+Definition simple_init (e : exp) : bool := match e with ETable _ _ _ => false | _ => true end.
 Definition Fe (e : exp) : Prop := frag_exp e = true -> wide_exp e = true /\ has_w_exp e = false /\ simple_init e = true.
 Definition Fs (s : stat) : Prop := frag_stat s = true -> wide_stat s = true /\ has_w_stat s = false.
 Definition Fb (b : block) : Prop := frag_block b = true -> wide_block b = true /\ has_w_block b = false.
@@ -365,7 +367,8 @@ Proof.
                         (fun x Hx => f_equal (pair x) (Be_in es IHe He flv slv reg en x Hx))).
     f_equal. f_equal. f_equal. apply index_map_ext_in. intros i eo Hx.
     apply in_map_iff in Hx. destruct Hx as [e [Heq Hin]]. subst eo. cbn [fst snd].
-    unfold tag_local_init_w. rewrite (frag_simple_init e (forallb_true_in _ _ He e Hin)). reflexivity.
+    unfold tag_local_init_w. pose proof (frag_simple_init e (forallb_true_in _ _ He e Hin)) as Hsi.
+    destruct e; try reflexivity. discriminate.
   - intros n nl f l IH Hf flv slv reg en. cbn [frag_stat] in Hf. apply andb_true_iff in Hf. destruct Hf as [Hn Hf].
     assert (He : frag_exp f = true) by (destruct f; try discriminate Hf; exact Hf).
     cbn [bw_stat b_stat]. rewrite (IH He). reflexivity.
